@@ -40,7 +40,14 @@ ChainPool(i) == {<<>>} \cup { <<t>> : t \in TERMS } \cup { <<N>> : N \in Later(i
 RepPool(i) == ChainPool(i) \cup { <<N, NTS[i]>> : N \in Later(i) }
               \cup { <<N, N, t>> : N \in Later(i), t \in TERMS } \cup { <<N, t, N>> : N \in Later(i), t \in TERMS }
               \cup { <<N, M>> : N \in Later(i), M \in Later(i) }
-AltPool == IF Pool = "rep" THEN UNION { RepPool(i) : i \in 1 .. Len(NTS) }
+(* "follow": four symbols; the start symbol is <<B, t>>, B has ONE alternative, every symbol uses later symbols only, *)
+(* also as <<N, t, M>> and <<t, M>> (a nullable LAST symbol behind a terminal: what may follow the symbols before it)    *)
+FollowPool(i) == IF i = 1 THEN { <<NTS[2], t>> : t \in TERMS }
+                 ELSE {<<>>} \cup { <<t>> : t \in TERMS } \cup { <<N, t>> : N \in Later(i), t \in TERMS }
+                      \cup { <<t, M>> : t \in TERMS, M \in Later(i) }
+                      \cup { <<N, t, M>> : N \in Later(i), t \in TERMS, M \in Later(i) }
+AltPool == IF Pool = "follow" THEN UNION { FollowPool(i) : i \in 1 .. Len(NTS) }
+           ELSE IF Pool = "rep" THEN UNION { RepPool(i) : i \in 1 .. Len(NTS) }
            ELSE IF Pool = "terms" THEN { Pfx \o t : t \in UNION { [1 .. n -> TERMS] : n \in 0 .. MaxLen } }     \* terminals only
            ELSE IF Pool = "chain" THEN UNION { ChainPool(i) : i \in 1 .. Len(NTS) }
            ELSE IF Pool = "nts"
@@ -60,6 +67,7 @@ AddAlt(alt) ==
   /\ (prods[cur] # <<>> => prods[cur][Len(prods[cur])] # alt)
   /\ (Pool = "chain" => alt \in ChainPool(cur))
   /\ (Pool = "rep" => alt \in RepPool(cur))
+  /\ (Pool = "follow" => alt \in FollowPool(cur) /\ (cur <= 2 => prods[cur] = <<>>))
   /\ (Pool = "nts" /\ Len(alt) > 1 =>               \* one sequence of non-terminals in the whole grammar
          \A j \in 1 .. Len(NTS) : \A i \in 1 .. Len(prods[j]) : Len(prods[j][i]) <= 1)
   /\ prods' = [prods EXCEPT ![cur] = Append(@, alt)]
@@ -73,7 +81,7 @@ Grammar(s) == [nts |-> NtSet, terms |-> TERMS, start |-> s,
 
 Finish(s) ==
   /\ phase = "build" /\ cur = Len(NTS) /\ prods[cur] # <<>>
-  /\ (Pool \in {"chain", "rep"} => s = NTS[1])
+  /\ (Pool \in {"chain", "rep", "follow"} => s = NTS[1])
   /\ start' = s /\ phase' = "done"
   /\ LET G == Grammar(s) IN
        Emit => PrintT(ToJson([start   |-> s,
